@@ -116,8 +116,7 @@ def run(ck, prog, tier, load):
     nrw = []
     for (bd, bb, s2, e) in writes_of_field(prog, FI + "need_read$", ["actix_http"]):
         if bd is fd:
-            c = norm_cmp(e)
-            if c and c[0] == "Lt" and c[3] is True and e_has_field(c[1], FI + "len$") and e_has_const(c[2], r"payload::MAX_BUFFER_SIZE$"):
+            if any(c[0] == "Lt" and c[3] is True and e_has_field(c[1], FI + "len$") and e_has_const(c[2], r"payload::MAX_BUFFER_SIZE$") for c in cmp_forms(e)):
                 nrw.append(bb)
     ok = bool(pushes_fd) and bool(nrw) and all(fd.must_pass_after(pb, fd.returns(), nrw)[0] or any(fd.dominates(w, pb) for w in nrw) for pb in pushes_fd)
     # and the length it compares was updated with this chunk
